@@ -81,7 +81,16 @@ def build_series(cfg):
             arr = buffers.reuse(f"e2e.series.{si}", arr)       # same array object as in earlier runs of this process
         out.append(arr)
     cfg.pop("_last_reg", None)
-    if cfg.get("series_as_views") and len(out) >= 2:
+    if cfg.get("series_as_views") == "interleaved":
+        # recordings multiplexed row by row in one buffer (series i is rows i, i+n, i+2n, ...): contiguous within a row, strided
+        # between rows; a single series is interleaved with a decoy
+        n = max(2, len(out))
+        L = max(len(a) for a in out)
+        owner = np.full((L * n, out[0].shape[1]), -7.25, dtype=out[0].dtype)
+        for i, a in enumerate(out):
+            owner[i::n][:len(a)] = a
+        out = [owner[i::n][:len(a)] for i, a in enumerate(out)]
+    elif cfg.get("series_as_views") and len(out) >= 2:
         # pieces of one recording handed over in another order than they lie in memory (row-slice views of one owner)
         rngv = np.random.default_rng(cfg["data_seed"] + 7)
         order = [int(i) for i in rngv.permutation(len(out))]
